@@ -9,15 +9,20 @@ NOTES = ("All checks are static: `./sv check <id>` re-extracts facts from /repo'
          "(cached by a hash of the sources) and decides rule instances over MIR/HIR. Exit 0 = held, 1 = VIOLATION, "
          "2 = INCONCLUSIVE (an anchor or floor is missing; fail closed). known_findings.json lists recorded defects.")
 
-NOT_APPLICABLE = {
-    "C03": "scan exactness/ordering/gaplessness is arithmetic over runtime index layouts (offset tables, MPHF lookups, block-cache "
-           "boundaries); no clause is visible in the shape of the code except the stream filter, which is decided under C04 (R4.5). "
-           "A structural proxy would fire on harmless edits or decide nothing (DESIGN.md section 7).",
-}
+NOT_APPLICABLE = {}
 
 NOTE = TB + " Unsafe code, FFI and the macOS-only cfg branches are not modelled. A shape the rules do not recognise is reported, never skipped."
 
 CHECKS = {
+    "C03": {
+        "text": "Decides ONE clause of the property: a scan or lookup never returns an event of another stream / partition / id. For all paths: every batch returned by "
+                "BucketIter::next_batch went through filter_commit; StreamIterConfig::filter_commit keeps an event only on the equal edge of event.stream_id == self.stream_id; "
+                "each of the three sealed-segment index lookups that go through the MPHF returns Some only on the equal edge of a comparison of the key stored in the slot with "
+                "the key asked for. Exactness, order and gaplessness (offset-index arithmetic, block-cache boundaries, segment hand-over, reverse scans) are NOT decided: "
+                "they are arithmetic over runtime layouts and no sound structural rule exists for them.",
+        "note": NOTE + " This is a deliberately narrow claim; a seeded change in the iterator's segment hand-over (seeded/C15b) is not detected and is listed as such in DESIGN.md section 9.",
+        "technique": "static analysis: gating (dominance of an equality edge over every Some return), value-flow of returned batches through the filter, closure-return shape",
+    },
     "C01": {
         "text": "For all paths: append_events returns Ok only after wait_for(synced >= its write offset); the synced offset is published only by "
                 "WriterSet::sync after a successful fsync and after the index entries were drained; FlushedOffset is set only after flush+sync_data; "
